@@ -1,7 +1,7 @@
 //! Hash join operator
 
 use crate::error::Result;
-use crate::physical::operators::filter::evaluate_expr;
+use crate::physical::operators::filter::evaluate_expr as evaluate_expr_raw;
 use crate::physical::operators::vectorized_hash;
 use crate::physical::{PhysicalOperator, RecordBatchStream};
 use crate::planner::{BinaryOp, Expr, JoinType};
@@ -17,6 +17,26 @@ use std::fmt;
 use std::hash::{Hash, Hasher};
 use std::sync::Arc;
 use tokio::sync::OnceCell;
+
+/// Evaluate a join key (or ON filter) expression, handing back PLAIN arrays.
+///
+/// A join over a small build side emits its string columns dictionary-encoded
+/// (see `create_joined_batch`). When such a column is the key of the NEXT join,
+/// the hash / compare kernels of this file (which dispatch on the concrete
+/// array type: `vectorized_hash`, `extract_join_key`, the i64 maps) did not
+/// recognise `Dictionary(Int32, Utf8)`: hashes were left untouched and every
+/// equality check answered "different", so the downstream join silently
+/// matched nothing (`a JOIN b ON .. JOIN c ON b.s = c.s` returned no rows).
+/// Decoding at the single place keys are evaluated keeps every kernel honest.
+fn evaluate_expr(batch: &RecordBatch, expr: &Expr) -> Result<ArrayRef> {
+    let arr = evaluate_expr_raw(batch, expr)?;
+    match arr.data_type() {
+        arrow::datatypes::DataType::Dictionary(_, value_type) => {
+            compute::cast(arr.as_ref(), value_type).map_err(Into::into)
+        }
+        _ => Ok(arr),
+    }
+}
 
 // Debug logging for crash investigation (disabled by default)
 #[allow(dead_code)]
@@ -409,6 +429,31 @@ impl VectorizedHashTable {
         })
     }
 
+    /// In direct-address mode `heads` is indexed by the i64 key VALUE (it is
+    /// sized by the key range, not by the hash mask), so the hashed fallbacks of
+    /// the probe functions must never run against it: an INTEGER (Int32) probe
+    /// key joined to a BIGINT build key fell through to them and indexed
+    /// `heads[hash & mask]` out of bounds. Widen such a probe key to Int64 so
+    /// the direct path serves it.
+    fn widen_probe_keys<'a>(
+        &self,
+        probe_key_arrays: &'a [ArrayRef],
+    ) -> std::borrow::Cow<'a, [ArrayRef]> {
+        use arrow::datatypes::DataType;
+        if self.direct.is_some()
+            && probe_key_arrays.len() == 1
+            && matches!(
+                probe_key_arrays[0].data_type(),
+                DataType::Int8 | DataType::Int16 | DataType::Int32 | DataType::UInt8 | DataType::UInt16 | DataType::UInt32
+            )
+        {
+            if let Ok(widened) = compute::cast(probe_key_arrays[0].as_ref(), &DataType::Int64) {
+                return std::borrow::Cow::Owned(vec![widened]);
+            }
+        }
+        std::borrow::Cow::Borrowed(probe_key_arrays)
+    }
+
     /// Probe the hash table with a batch of probe keys.
     /// Returns matched (build_batch_idx, build_row_idx, probe_row_idx) triples.
     #[inline]
@@ -424,6 +469,8 @@ impl VectorizedHashTable {
         num_rows: usize,
         mut emit: impl FnMut(u32, u32, u32),
     ) -> bool {
+        let widened = self.widen_probe_keys(probe_key_arrays);
+        let probe_key_arrays: &[ArrayRef] = &widened;
         if let Some((kmin, kmax)) = self.direct {
             if let Some(pa) = probe_key_arrays[0].as_any().downcast_ref::<Int64Array>() {
                 let vals = pa.values();
@@ -484,6 +531,8 @@ impl VectorizedHashTable {
 
     fn probe_batch(&self, probe_key_arrays: &[ArrayRef], num_rows: usize) -> Vec<(u32, u32, u32)> {
         let mut matches = Vec::new();
+        let widened = self.widen_probe_keys(probe_key_arrays);
+        let probe_key_arrays: &[ArrayRef] = &widened;
 
         // Direct-address probe: bounds check + slot load; chain entries are
         // exactly equal keys, so no hashing and no comparisons.
@@ -626,6 +675,8 @@ impl VectorizedHashTable {
     #[inline]
     fn probe_batch_semi(&self, probe_key_arrays: &[ArrayRef], num_rows: usize) -> Vec<bool> {
         let mut matched = vec![false; num_rows];
+        let widened = self.widen_probe_keys(probe_key_arrays);
+        let probe_key_arrays: &[ArrayRef] = &widened;
 
         // Direct-address: membership = slot occupancy, no hash/compare.
         if let Some((kmin, kmax)) = self.direct {
@@ -962,6 +1013,16 @@ impl PhysicalOperator for HashJoinExec {
                     }
                     build_batches.extend(batches);
                 }
+                // A build side that yields NO batch at all (an empty Parquet
+                // table; a filter that drops every batch) must still carry its
+                // columns: outer joins null-extend the build side by gathering
+                // NULL sentinels from `build_batches[0]`, and with nothing to
+                // gather from they emitted probe columns only (wrong rows for
+                // FULL, a schema error for LEFT/RIGHT). One empty batch of the
+                // build schema makes every gather path uniform.
+                if build_batches.is_empty() {
+                    build_batches.push(RecordBatch::new_empty(build_side.schema()));
+                }
                 debug_log(&format!(
                     "Build side collected: {} batches, {} total rows, {} bytes",
                     build_batches.len(),
@@ -1208,9 +1269,18 @@ impl PhysicalOperator for HashJoinExec {
                     );
                 }
 
-                // Skip expensive generic hash table build when vectorized or i64 fast path is available
-                let hash_table = if vectorized_ht.is_some()
-                    || (i64_hash_table.is_some() && can_skip_generic_ht)
+                // Skip expensive generic hash table build when vectorized or i64 fast path is available.
+                // A Semi/Anti join with an ON filter is the exception: its probe
+                // paths (the generic loop in probe_hash_table for small probes and
+                // probe_semi_anti_parallel when the filter does not compile or the
+                // key is not a single i64) look candidates up in THIS table. Left
+                // empty, every filtered Semi returned no rows and every filtered
+                // Anti returned all of them.
+                let filtered_semi_anti = self.filter.is_some()
+                    && matches!(self.join_type, JoinType::Semi | JoinType::Anti);
+                let hash_table = if !filtered_semi_anti
+                    && (vectorized_ht.is_some()
+                        || (i64_hash_table.is_some() && can_skip_generic_ht))
                 {
                     HashMap::new()
                 } else {
@@ -1929,6 +1999,13 @@ impl CompiledFilter {
         let build_col = build_batch.column(self.build_col_idx);
         let probe_col = probe_batch.column(self.probe_col_idx);
 
+        // A comparison with NULL is unknown, and unknown is not TRUE: the pair
+        // does not qualify. (Reading `value()` of a NULL slot compares whatever
+        // the values buffer holds there.)
+        if build_col.is_null(build_row) || probe_col.is_null(probe_row) {
+            return false;
+        }
+
         // Fast path for Int64 (most common for join keys)
         if let (Some(b_arr), Some(p_arr)) = (
             build_col.as_any().downcast_ref::<Int64Array>(),
@@ -2302,7 +2379,11 @@ fn probe_semi_anti_parallel(
                                         .store(true, Ordering::Relaxed);
                                 }
                             }
-                            pass
+                            // One passing candidate settles a PROBE row (swapped:
+                            // the probe side is the output). Not swapped, the
+                            // output is the BUILD side and every build row this
+                            // probe row matches must be marked: keep going.
+                            pass && swapped
                         });
                         continue;
                     }
@@ -2336,7 +2417,9 @@ fn probe_semi_anti_parallel(
                                         build_matched[entry.batch_idx][entry.row_idx]
                                             .store(true, Ordering::Relaxed);
                                     }
-                                    break;
+                                    if swapped {
+                                        break;
+                                    }
                                 }
                             } else if let Some(filter_expr) = filter {
                                 let build_row_batch = create_single_row_combined_batch(
@@ -2353,7 +2436,8 @@ fn probe_semi_anti_parallel(
                                     .as_any()
                                     .downcast_ref::<arrow::array::BooleanArray>(
                                 ) {
-                                    if bool_arr.len() > 0 && bool_arr.value(0) {
+                                    // NULL is not TRUE: an unknown join condition rejects the pair.
+                                    if bool_arr.len() > 0 && bool_arr.is_valid(0) && bool_arr.value(0) {
                                         if swapped {
                                             probe_matched_batch[probe_row]
                                                 .store(true, Ordering::Relaxed);
@@ -2361,7 +2445,9 @@ fn probe_semi_anti_parallel(
                                             build_matched[entry.batch_idx][entry.row_idx]
                                                 .store(true, Ordering::Relaxed);
                                         }
-                                        break;
+                                        if swapped {
+                                            break;
+                                        }
                                     }
                                 }
                             } else {
@@ -2371,7 +2457,9 @@ fn probe_semi_anti_parallel(
                                     build_matched[entry.batch_idx][entry.row_idx]
                                         .store(true, Ordering::Relaxed);
                                 }
-                                break;
+                                if swapped {
+                                    break;
+                                }
                             }
                         }
                     }
@@ -2392,8 +2480,11 @@ fn probe_semi_anti_parallel(
                             .iter()
                             .map(|col| arrow::compute::take(col, &take_idx, None))
                             .collect();
-                    let batch = RecordBatch::try_new(
-                        output_schema.clone(),
+                    // Semi/Anti pass their (probe = left) input through: the
+                    // columns may be dictionary-encoded strings from an
+                    // upstream join, which the declared schema does not say.
+                    let batch = batch_with_actual_types(
+                        output_schema,
                         columns.map_err(|e| crate::error::QueryError::Execution(e.to_string()))?,
                     )?;
                     return Ok(Some(batch));
@@ -3078,8 +3169,8 @@ fn probe_vectorized(
                                 .iter()
                                 .map(|col| arrow::compute::take(col, &take_idx, None))
                                 .collect();
-                        let batch = RecordBatch::try_new(
-                            output_schema.clone(),
+                        let batch = batch_with_actual_types(
+                            output_schema,
                             columns
                                 .map_err(|e| crate::error::QueryError::Execution(e.to_string()))?,
                         )?;
@@ -3421,8 +3512,8 @@ fn probe_hash_table(
                                 .iter()
                                 .map(|col| arrow::compute::take(col, &take_idx, None))
                                 .collect();
-                        let batch = RecordBatch::try_new(
-                            output_schema.clone(),
+                        let batch = batch_with_actual_types(
+                            output_schema,
                             columns
                                 .map_err(|e| crate::error::QueryError::Execution(e.to_string()))?,
                         )?;
@@ -3587,7 +3678,7 @@ fn create_semi_anti_batch(
         .map(|col_idx| gather_column(build_batches, col_idx, indices))
         .collect();
 
-    RecordBatch::try_new(output_schema.clone(), columns?).map_err(Into::into)
+    batch_with_actual_types(output_schema, columns?)
 }
 
 fn create_joined_batch(
